@@ -46,7 +46,7 @@ class Harness:
     """One harness of a tier. `name` is the fully qualified path inside the harness crate."""
 
     def __init__(self, name, quick=False, timeout=900, mem_gb=12, cbmc_args=None, termination=False,
-                 drives=None, bound=None, weight=1):
+                 drives=None, bound=None, weight=1, allow=None):
         self.name = name
         self.quick = quick
         self.timeout = timeout
@@ -57,6 +57,7 @@ class Harness:
         self.drives = drives or []
         self.bound = bound or ""
         self.weight = weight  # scheduling weight (memory-hungry harnesses count for more)
+        self.allow = allow or []  # failed-check descriptions that ARE the documented behaviour (a rejecting panic)
 
 
 def _limits(mem_gb):
@@ -225,7 +226,7 @@ def parse_log(text):
     if re.search(r"^error(\[E\d+\])?: ", text, re.M) and res["verdict"] is None:
         res["compile_error"] = True
     for name, status, desc, loc in _iter_checks(text):
-        if ".cover." in name or desc.startswith("W: ") or desc.startswith("U: "):
+        if ".cover." in name or desc.startswith("W: ") or desc.startswith("W@") or desc.startswith("U: "):
             res["covers"].append({"desc": desc, "status": status})
         elif status == "FAILURE":
             res["failed"].append({"check": name, "desc": desc, "loc": (loc or "").strip()})
@@ -281,6 +282,8 @@ def classify(h, res):
     for f in failed:
         if h.r9 and f["desc"] in R9_ALLOWED:
             continue
+        if any(a in f["desc"] for a in h.allow):
+            continue
         unexpected.append(f)
     unwinding = [f for f in unexpected if "unwinding assertion" in f["desc"] or "recursion unwinding" in f["desc"]]
     real = [f for f in unexpected if f not in unwinding]
@@ -296,8 +299,12 @@ def classify(h, res):
         return
     # vacuity witnesses
     for c in res["covers"]:
-        if c["desc"].startswith("W: ") and c["status"] != "SATISFIED":
-            reasons.append("witness not satisfied: " + c["desc"])
+        d = c["desc"]
+        required = d.startswith("W: ")
+        if d.startswith("W@"):  # `W@tag: text` is required only in harnesses whose name contains the tag
+            required = d[2:d.index(":")] in h.name
+        if required and c["status"] != "SATISFIED":
+            reasons.append("witness not satisfied: " + d)
         if c["desc"].startswith("U: ") and c["status"] == "SATISFIED":
             res["status"], res["reason"] = "violation_candidate", "forbidden outcome reachable: " + c["desc"]
             res["unexpected"] = [{"check": "cover", "desc": c["desc"], "loc": ""}]
